@@ -27,6 +27,14 @@ def run_cases(cases, res, stratum):
             obs = {'l': (A.fmt_of(l), lib.codes_of(l), lib.status3(l)[:2]), 'r': (A.fmt_of(r), lib.codes_of(r), lib.status3(r)[:2]), 'x_after': lib.codes_of(x),
                    'x_fmt': A.fmt_of(x), 'views': (lib.vals_of(l.get_val()), lib.vals_of(np.asarray(l.real)), lib.vals_of(r.get_val()), lib.vals_of(np.asarray(r.real))),
                    'val_is_array': (isinstance(l.val, np.ndarray), isinstance(r.val, np.ndarray))}
+            if arr and c['mode'] == 'expand' and (n + len(codes)) % 2 == 0:
+                # a second shift of the same object after its codes changed through a VIEW (no memo of the first shift may survive)
+                lo_, hi_ = S.fmt_bounds(s, nw)
+                x2 = A.mk(fx, np, s, nw, nf, codes, shape=(len(codes),), shifting='expand'); _ = x2 >> nn
+                v_ = x2[0:1]; v_[0] = fx.Fxp(1 if hi_ >= 1 else lo_, s, nw, nf, raw=True)
+                r2 = x2 >> nn; new_codes = [1 if hi_ >= 1 else lo_] + list(codes[1:])
+                if lib.codes_of(x2) == new_codes:
+                    obs['again'] = ([Fraction(t) / Fraction(2) ** r2.n_frac for t in lib.codes_of(r2)], [Fraction(t) / Fraction(2) ** (nf + n) for t in new_codes])
         except Exception as e:
             res.fail(c, 'C14: a shift raised %s' % lib.exc_name(e), got=str(e)[:200]); continue
         pend.append((c, obs))
@@ -54,6 +62,8 @@ def run_cases(cases, res, stratum):
             res.fail(c, 'C14: a value view of the shifted result (get_val(), .real) is not code*2^-n_frac of the result', expected=([str(v) for v in lv], [str(v) for v in rv]), got=[[str(v) for v in w] for w in obs['views']]); continue
         if obs['val_is_array'] != (True, True):
             res.fail(c, 'C14: the raw value of a shifted result is not an array (a bare number)', expected=(True, True), got=obs['val_is_array']); continue
+        if 'again' in obs and obs['again'][0] != obs['again'][1]:
+            res.fail(c, 'C14: x >> n in expand mode, repeated after the codes of x changed through a view, is not x / 2^n exactly', expected=[str(v) for v in obs['again'][1]], got=[str(v) for v in obs['again'][0]]); continue
         if c['mode'] == 'expand':
             if lv != [v * 2 ** n for v in xs] or sl != (False, False) or fl[0] != s:
                 res.fail(c, 'C14: x << n in expand mode is not x * 2^n exactly', expected=[str(v * 2 ** n) for v in xs], got=([str(v) for v in lv], fl, sl)); continue
